@@ -1,3 +1,98 @@
-(* C06 — placeholder while the proofs are written. *)
-From FH Require Import Model.Base Model.Cookie Spec.CookieSpec.
-Example C06_placeholder : True. Proof. exact I. Qed.
+(* C06 — Cookie values cannot smuggle cookies or attributes; cookies round-trip.
+   Statements only; proofs live in Proof/CookieProof.v.
+
+   Cookie objects: state after ANY sequence of setter calls (crun, normalizePath an arbitrary function).
+   Times are whole seconds; expire_ok = zero Time or year 0..9999 (the range C31 proves the date codec for);
+   maxAge is a Go int (<= maxInt 64). *)
+From FH Require Import Model.Base Gen.GenC06 Model.Ints Model.Cookie Spec.CookieSpec Proof.DateProof Proof.CookieProof Check.C06Check.
+Open Scope N_scope.
+
+(* no ';' CR LF survives in key, value, domain, path of a response cookie (any setter sequence, any normalizePath),
+   nor in a request cookie's key or value; the stored text is the input with separators turned into spaces *)
+Theorem C06_setters_strip_separators :
+  (forall normalizePath ops, let c := crun normalizePath ops in
+     no_sep (ck_key c) = true /\ no_sep (ck_value c) = true /\ no_sep (ck_domain c) = true /\ no_sep (ck_path c) = true) /\
+  (forall s, removeSemicolons (ByteClassModel.removeNewLines s) = clean s /\ no_sep (clean s) = true) /\
+  (forall sets, jar_run sets = jar_of sets /\ Forall (fun kv => no_sep (fst kv) = true /\ no_sep (snd kv) = true) (jar_of sets)).
+Proof.
+  split; [intros np ops; exact (crun_ns np ops)|]. split; [intros s; split; [apply clean_model|apply clean_ns]|].
+  intros sets. split; [apply jar_run_spec|apply jar_of_ns].
+Qed.
+Print Assumptions C06_setters_strip_separators.
+
+(* (a) attribute non-injection: whenever the serialised cookie parses, the parsed attributes are exactly the ones the
+   object carries (max-age wins over expires, negative max-age reads back as 0, domain/path up to outer blanks and one
+   pair of quotes), whatever bytes key, value, domain and path were given *)
+Theorem C06_no_attribute_injection : forall c c',
+  cookie_ns c -> (ck_maxAge c <= maxInt 64)%Z -> expire_ok c ->
+  ParseBytes (Cookie_ c) = PCookie c' -> attrs_as_set c c'.
+Proof. exact no_attribute_injection. Qed.
+Print Assumptions C06_no_attribute_injection.
+
+Corollary C06_no_attribute_injection_setters : forall normalizePath ops c',
+  let c := crun normalizePath ops in
+  (ck_maxAge c <= maxInt 64)%Z -> expire_ok c -> ParseBytes (Cookie_ c) = PCookie c' -> attrs_as_set c c'.
+Proof. intros np ops c' c. apply no_attribute_injection. apply crun_ns. Qed.
+Print Assumptions C06_no_attribute_injection_setters.
+
+(* the complete outcome of parsing what was serialised: the first pair, then each attribute group on its own; the only
+   possible errors are "no cookie" and "invalid value" — never the unmodelled time.Parse fallback, never a max-age error *)
+Theorem C06_parse_outcome : forall c, cookie_ns c -> (ck_maxAge c <= maxInt 64)%Z -> expire_ok c ->
+  Cookie_ c = first_seg c ++ sj (attr_segs c) /\ ParseBytes (Cookie_ c) = parse_spec c.
+Proof. intros c H1 H2 H3. split; [apply Cookie_shape|now apply ParseBytes_spec]. Qed.
+Print Assumptions C06_parse_outcome.
+
+(* (b) request side: what parseRequestCookies reads from the Cookie header built by any sequence of SetCookie calls is
+   exactly the cookies that were set (last value per neutralised key, in first-insertion order), each read as its text
+   key=value split at the first '=', minus those the server refuses: never more cookies than distinct keys, never a cookie
+   that does not stem from one that was set *)
+Theorem C06_request_no_extra_cookie : forall sets,
+  parseRequestCookies [] (appendRequestCookieBytes [] (jar_run sets)) =
+    Some (flat_map (fun kv => if keep (seen_pair kv) then [seen_pair kv] else []) (jar_of sets)) /\
+  forall seen, parseRequestCookies [] (appendRequestCookieBytes [] (jar_run sets)) = Some seen ->
+    (length seen <= length (jar_of sets))%nat /\ (length (jar_of sets) <= length sets)%nat /\ NoDup (map fst (jar_of sets)) /\
+    (forall p, In p seen -> exists kv, In kv (jar_of sets) /\ p = seen_pair kv).
+Proof. intros sets. split; [apply request_cookies_exact|apply request_no_extra_cookie]. Qed.
+Print Assumptions C06_request_no_extra_cookie.
+
+(* (c) exact round trip for cookie-octet values/domains and token keys (expiry to the second) *)
+Theorem C06_roundtrip_octets :
+  (forall c, cookie_name (ck_key c) = true -> octets (ck_value c) = true -> octets (ck_domain c) = true ->
+     forallb path_byte (ck_path c) = true -> (0 <= ck_maxAge c <= maxInt 64 \/ ck_maxAge c < 0)%Z -> expire_ok c ->
+     exists c', ParseBytes (Cookie_ c) = PCookie c' /\
+       ck_key c' = ck_key c /\ ck_value c' = ck_value c /\ ck_domain c' = ck_domain c /\ ck_path c' = attr_norm (ck_path c) /\
+       attrs_as_set c c') /\
+  (forall sets, Forall (fun kv => cookie_name (fst kv) = true /\ octets (snd kv) = true) sets ->
+     parseRequestCookies [] (appendRequestCookieBytes [] (jar_run sets)) = Some (jar_of sets) /\
+     jar_of sets = fold_left (fun j kv => assoc_set j (fst kv) (snd kv)) sets []).
+Proof. split; [exact roundtrip_octets|exact request_roundtrip_octets]. Qed.
+Print Assumptions C06_roundtrip_octets.
+
+(* ---- non-vacuity ---- *)
+Definition idp (p : bytes) := p.
+Example C06_ex_smuggle_neutralised :
+  Cookie_ (crun idp [OKey (s2b "sid"); OValue (s2b "x; Secure; Domain=evil.com"); OPath (s2b "/a;b"); OHTTPOnly true])
+  = s2b "sid=x  Secure  Domain=evil.com; path=/a b; HttpOnly".
+Proof. vm_compute. reflexivity. Qed.
+Example C06_ex_parse_back :
+  match ParseBytes (Cookie_ (crun idp [OKey (s2b "sid"); OValue (s2b "x; Secure"); OMaxAge (-5); OExpire 1257894000; OSameSite SSNone])) with
+  | PCookie p => ck_secure p = true /\ ck_maxAge p = 0%Z /\ ck_expire p = zeroTime /\ ck_sameSite p = SSNone /\ ck_value p = s2b "x  Secure" /\ ck_domain p = []
+  | _ => False
+  end.
+Proof. vm_compute. repeat split; reflexivity. Qed.
+Example C06_ex_expiry_roundtrip :
+  match ParseBytes (Cookie_ (crun idp [OKey (s2b "k"); OValue (s2b "v"); OExpire 1257894000])) with
+  | PCookie p => ck_expire p = 1257894000%Z | _ => False end.
+Proof. vm_compute. reflexivity. Qed.
+Example C06_ex_request :
+  appendRequestCookieBytes [] (jar_run [(s2b "a", s2b "b; c=d"); (s2b "e", s2b "f"); (s2b "a", s2b "g")]) = s2b "a=g; e=f" /\
+  appendRequestCookieBytes [] (jar_run [(s2b "a", s2b "b; c=d")]) = s2b "a=b  c=d" /\
+  parseRequestCookies [] (s2b "a=b  c=d") = Some [(s2b "a", s2b "b  c=d")].
+Proof. vm_compute. repeat split; reflexivity. Qed.
+(* the oracle rejects the pre-fix behaviour: one SetCookie, two cookies seen *)
+Example C06_ex_oracle_sensitive :
+  prop_ok (CReqCookies [(s2b "a", s2b "b; c=d")] (s2b "a=b; c=d") [(s2b "a", s2b "b"); (s2b "c", s2b "d")] None) = false /\
+  prop_ok (CReqCookies [(s2b "a", s2b "b; c=d")] (s2b "a=b  c=d") [(s2b "a", s2b "b  c=d")] None) = true /\
+  prop_ok (CCookie [] [] (mkCookie (s2b "k") (s2b "v") [] [] zeroTime 0 SSDisabled false false false) (s2b "k=v; secure")
+             (Some (mkCookie (s2b "k") (s2b "v") [] [] zeroTime 0 SSDisabled false true false)) None) = false.
+Proof. vm_compute. repeat split; reflexivity. Qed.
